@@ -6,6 +6,9 @@ import (
 	"strings"
 	"unicode/utf8"
 
+	"github.com/jotaen/klog/klog/app"
+	tf "github.com/jotaen/klog/klog/app/cli/terminalformat"
+	"github.com/jotaen/klog/klog/app/cli/util"
 	"github.com/jotaen/klog/klog/parser"
 	"github.com/jotaen/klog/klog/parser/txt"
 )
@@ -152,6 +155,9 @@ func runC10(env *Env, data map[string]any) *Outcome {
 			}
 		}
 	}
+	// the prettifier itself, for every colour theme: against the model (K) and read back by an
+	// independent reader of the uncoloured form (D)
+	c10Pretty(env, o, text, errs)
 	js := runCLI(env, CLIOpts{Now: mkTime(2021, 3, 4, 12, 0)}, "json", file)
 	o.Evals++
 	if js.Panic != "" || js.Code != 0 {
@@ -180,4 +186,81 @@ func runC10(env *Env, data map[string]any) *Outcome {
 	}
 	o.Sample = map[string]any{"class": str(data, "class"), "faulty_line": faulty + 1, "first_error": canonErr(errs[0])}
 	return o
+}
+
+var c10Themes = []tf.ColourTheme{tf.COLOUR_THEME_NO_COLOUR, tf.COLOUR_THEME_DARK, tf.COLOUR_THEME_LIGHT, tf.COLOUR_THEME_BASIC}
+
+// c10Pretty renders the errors with util.PrettifyParsingError under every colour theme and
+// compares with the model (K); the uncoloured rendering is read back line by line (D): per error
+// an empty line, the header naming the line number (and origin), the quoted line (tabs as
+// blanks), exactly Position() blanks and Length() carets under it, then the message.
+func c10Pretty(env *Env, o *Outcome, text string, errs []txt.Error) {
+	origin := Pick(NewRand(int64(len(text)), "C10-origin", len(errs)), []string{"", "a.klg", "/x/y z/100%s.klg", "\u00e4.klg"})
+	for _, e := range errs {
+		e.SetOrigin(origin)
+	}
+	for ti, th := range c10Themes {
+		var out string
+		if p := safely(func() { out = util.PrettifyParsingError(app.NewParserErrors(errs), tf.NewStyler(th)).Error() }); p != "" {
+			o.Findings = append(o.Findings, Finding{Kind: "D", What: "PrettifyParsingError panics: " + p})
+			return
+		}
+		o.Evals++
+		model := env.Drv.Ask("prettyerr", hx(text), string(th), hx(origin))
+		got := "ok " + hx(string([]rune(out))) // decoded form: invalid bytes become U+FFFD on both sides
+		if model != got {
+			o.Findings = append(o.Findings, Finding{Kind: "K", What: "K.C10.pretty: terminal rendering of the errors (" + string(th) + ") differs from the model", Impl: short(out, 1500), Model: short(unhx(strings.TrimPrefix(model, "ok ")), 1500)})
+			return
+		}
+		if ti != 0 {
+			if tf.StripAllAnsiSequences(out) != tf.StripAllAnsiSequences(c10Plain(errs)) {
+				o.Findings = append(o.Findings, Finding{Kind: "D", What: "the coloured rendering of the errors (" + string(th) + "), with the colour sequences removed, is not the uncoloured rendering", Impl: short(out, 1500)})
+				return
+			}
+			continue
+		}
+		// D: read the uncoloured rendering back
+		rest := out
+		for i, e := range errs {
+			head := "\n[SYNTAX ERROR] in line " + fmt.Sprint(e.LineNumber())
+			if origin != "" {
+				head += " of file " + origin
+			}
+			head += "\n"
+			if !strings.HasPrefix(rest, head) {
+				o.Findings = append(o.Findings, Finding{Kind: "D", What: fmt.Sprintf("terminal rendering: the block of error %d does not start with the header for line %d", i+1, e.LineNumber()), Impl: short(out, 1500)})
+				return
+			}
+			rest = rest[len(head):]
+			quoted := "    " + strings.ReplaceAll(e.LineText(), "\t", " ") + "\n"
+			carets := "    " + strings.Repeat(" ", e.Position()) + strings.Repeat("^", e.Length()) + "\n"
+			if !strings.HasPrefix(rest, quoted+carets) {
+				o.Findings = append(o.Findings, Finding{Kind: "D", What: fmt.Sprintf("terminal rendering: error %d does not quote its line with %d blanks and %d carets under it", i+1, e.Position(), e.Length()), Impl: short(out, 1500)})
+				return
+			}
+			rest = rest[len(quoted)+len(carets):]
+			// the message: its words, in order, each line indented
+			k := strings.Index(rest, "\n\n[SYNTAX ERROR]")
+			msg := rest
+			if k >= 0 {
+				msg, rest = rest[:k+1], rest[k+1:]
+			} else {
+				rest = ""
+			}
+			if strings.Join(strings.Fields(msg), " ") != strings.Join(strings.Fields(e.Message()), " ") {
+				o.Findings = append(o.Findings, Finding{Kind: "D", What: fmt.Sprintf("terminal rendering: the message of error %d is not title and details word by word", i+1), Impl: short(out, 1500)})
+				return
+			}
+			for _, ml := range strings.Split(strings.TrimSuffix(msg, "\n"), "\n") {
+				if !strings.HasPrefix(ml, "    ") {
+					o.Findings = append(o.Findings, Finding{Kind: "D", What: fmt.Sprintf("terminal rendering: a message line of error %d is not indented", i+1), Impl: short(out, 1500)})
+					return
+				}
+			}
+		}
+	}
+}
+
+func c10Plain(errs []txt.Error) string {
+	return util.PrettifyParsingError(app.NewParserErrors(errs), tf.NewStyler(tf.COLOUR_THEME_NO_COLOUR)).Error()
 }
